@@ -23,7 +23,7 @@ VARIABLES l,        \* next event
           errs      \* sequence of <<line, tag>> (at most MaxErrs)
 
 tvars == <<l, cfgLine, donated, errs>>
-MaxErrs == 8
+MaxErrs == 400
 
 TraceInit == l = 1 /\ cfgLine = 1 /\ donated = 0 /\ errs = <<>>
 
